@@ -52,12 +52,22 @@ structure Entry where
   lease : Nat := 0
 deriving DecidableEq, Repr, Inhabited
 
-/-- memory state: total map key ↦ entry (`fetchVal` creates absent entries empty, so absent = empty) -/
-abbrev Mem := Bytes → Entry
+/-- memory state: finite map key ↦ entry as an association list with unique keys (`fetchVal` creates
+absent entries empty, so absent = empty entry) -/
+abbrev Mem := List (Bytes × Entry)
 
-def Mem.empty : Mem := fun _ => {}
+def Mem.empty : Mem := []
 
-def Mem.set (m : Mem) (k : Bytes) (e : Entry) : Mem := fun k' => if k' = k then e else m k'
+def Mem.get (m : Mem) (k : Bytes) : Entry :=
+  match m.find? (fun p => p.1 = k) with
+  | some p => p.2
+  | none => {}
+
+def Mem.set (m : Mem) (k : Bytes) (e : Entry) : Mem :=
+  if m.any (fun p => p.1 = k) then m.map (fun p => if p.1 = k then (k, e) else p) else m ++ [(k, e)]
+
+/-- `deleteAll` -/
+def Mem.erase (m : Mem) (k : Bytes) : Mem := m.filter (fun p => p.1 ≠ k)
 
 inductive Err where
   | conflict      -- chord.ErrKVPrefixConflict
@@ -69,7 +79,7 @@ def addChild (cs : List Bytes) (c : Bytes) : List Bytes := if c ∈ cs then cs e
 
 /-- `memory.Import` loop body for one (key, transfer) pair -/
 def importOne (m : Mem) (k : Bytes) (t : Transfer) : Mem :=
-  let e := m k
+  let e := m.get k
   m.set k { val := t.value, lease := t.lease, children := t.children.foldl addChild e.children }
 
 def importAll (m : Mem) : List Bytes → List Transfer → Except Err Mem
@@ -79,20 +89,20 @@ def importAll (m : Mem) : List Bytes → List Transfer → Except Err Mem
 
 /-- `DiskKV.handleMutation` (dispatch + the memory operation) -/
 def handle (m : Mem) (mu : Mutation) : Except Err Mem :=
-  if mu.type = tPut then .ok (m.set mu.key { m mu.key with val := mu.value })
-  else if mu.type = tDelete then .ok (m.set mu.key { m mu.key with val := [] })
+  if mu.type = tPut then .ok (m.set mu.key { m.get mu.key with val := mu.value })
+  else if mu.type = tDelete then .ok (m.set mu.key { m.get mu.key with val := [] })
   else if mu.type = tAppend then
-    if mu.value ∈ (m mu.key).children then .error .conflict
-    else .ok (m.set mu.key { m mu.key with children := (m mu.key).children ++ [mu.value] })
+    if mu.value ∈ (m.get mu.key).children then .error .conflict
+    else .ok (m.set mu.key { m.get mu.key with children := (m.get mu.key).children ++ [mu.value] })
   else if mu.type = tRemove then
-    .ok (m.set mu.key { m mu.key with children := (m mu.key).children.filter (· ≠ mu.value) })
+    .ok (m.set mu.key { m.get mu.key with children := (m.get mu.key).children.filter (· ≠ mu.value) })
   else if mu.type = tImport then importAll m mu.keys mu.values
-  else if mu.type = tRemoveKeys then .ok (mu.keys.foldl (fun m k => m.set k {}) m)
+  else if mu.type = tRemoveKeys then .ok (mu.keys.foldl Mem.erase m)
   else .ok m
 
 /-- `DiskKV.checkMutation`: the error a mutation is known to fail with, without applying it -/
 def check (m : Mem) (mu : Mutation) : Option Err :=
-  if mu.type = tAppend ∧ mu.value ∈ (m mu.key).children then some .conflict else none
+  if mu.type = tAppend ∧ mu.value ∈ (m.get mu.key).children then some .conflict else none
 
 /-- callers of `Import` pass one transfer per key; shorter `values` panics inside the writer goroutine
 (the process dies), which is outside the histories the properties quantify over -/
